@@ -4,13 +4,14 @@ mod inputs;
 mod refsem;
 mod vmrun;
 mod c01;
+mod c05;
 mod c10;
 mod c11;
 
 use fw::*;
 
 fn defs() -> Vec<CheckDef> {
-    vec![c01::DEF, c10::DEF, c11::DEF]
+    vec![c01::DEF, c05::DEF, c10::DEF, c11::DEF]
 }
 
 fn arg_after(args: &[String], flag: &str) -> Option<String> {
